@@ -141,7 +141,7 @@ def run(ctx):
             if isinstance(cur, ast.If) and ('obj' in names_in(cur.test)):
                 own_test = True
     # producer: scan of the top-level state values only
-    scans = [st for st in walk_local(rr.node) if isinstance(st, ast.For) and 'state.items()' in norm(st.iter)]
+    scans = [st for st in walk_local(rr.node) if isinstance(st, ast.For) and '.items()' in norm(st.iter) and any(last_attr(c) == 'subject_to_custom_reduce' for c in calls_in(st))]
     recursive = False
     if scans:
         for c in calls_in(scans[0]):
